@@ -73,7 +73,9 @@ MYTH_CTX_CALLBACK void myth_block_on_queue_cb(void *arg1,void *arg2,void *arg3) 
      after it enters the queue and access
      cur data structure before the context
      has been saved  */
+  MYTH_VERIF_POINT(MVP_BLOCK_CB_A);
   myth_sleep_queue_enq_th(q, cur);
+  MYTH_VERIF_POINT(MVP_BLOCK_CB_B);
   if (m) {
     myth_mutex_unlock_body(m);
   }
@@ -85,6 +87,7 @@ static inline void myth_block_on_queue(myth_sleep_queue_t * q,
   myth_running_env_t env = myth_get_current_env();
   myth_thread_t cur = env->this_thread;
   /* pop next thread to run */
+  MYTH_VERIF_POINT(MVP_BLOCK_A);
   myth_thread_t next = myth_queue_pop(&env->runnable_q);
   /* next context to run. either another thread
      or the scheduler */
@@ -120,7 +123,9 @@ MYTH_CTX_CALLBACK void myth_block_on_stack_cb(void *arg1,void *arg2,void *arg3) 
      after it enters the queue and access
      cur data structure before the context
      has been saved  */
+  MYTH_VERIF_POINT(MVP_BLOCK_S_CB_A);
   myth_sleep_stack_push_th(s, cur);
+  MYTH_VERIF_POINT(MVP_BLOCK_S_CB_B);
   if (m) {
     myth_mutex_unlock_body(m);
   }
@@ -133,6 +138,7 @@ static inline void myth_block_on_stack(myth_sleep_stack_t * s,
   myth_running_env_t env = myth_get_current_env();
   myth_thread_t cur = env->this_thread;
   /* pop next thread to run */
+  MYTH_VERIF_POINT(MVP_BLOCK_A);
   myth_thread_t next = myth_queue_pop(&env->runnable_q);
   /* next context to run. either another thread
      or the scheduler */
@@ -192,6 +198,7 @@ static inline int myth_wake_one_from_queue(myth_sleep_queue_t * q,
     to_wake = myth_sleep_queue_deq_th(q);
     if (to_wake) break;
     failed++;
+    MYTH_VERIF_SPIN(MVS_WAKE_ONE);
     empty_loop(100);
   }
   /* wake up this guy */
@@ -209,6 +216,7 @@ static inline int myth_wake_one_from_queue(myth_sleep_queue_t * q,
   if (callback) {
     callback(arg);
   }
+  MYTH_VERIF_POINT(MVP_WAKE_PUSH);
   /* put the thread to wake up in run queue */
   myth_queue_push(&env->runnable_q, to_wake);
   return failed;
@@ -262,6 +270,7 @@ static inline int myth_wake_many_from_queue(myth_sleep_queue_t * q,
     myth_thread_t to_wake = 0;
     while (!to_wake) {
       to_wake = myth_sleep_queue_deq_th(q);
+      if (!to_wake) MYTH_VERIF_SPIN(MVS_WAKE_MANY_Q);
     }
     to_wake->env = env;
     to_wake->next = 0;
@@ -376,6 +385,7 @@ static inline int myth_wake_many_from_stack(myth_sleep_stack_t * s,
     myth_thread_t to_wake = 0;
     while (!to_wake) {
       to_wake = myth_sleep_stack_pop_th(s);
+      if (!to_wake) MYTH_VERIF_SPIN(MVS_WAKE_MANY_S);
     }
     to_wake->env = env;
     to_wake->next = 0;
@@ -421,6 +431,7 @@ static inline int myth_once_wait_until(myth_once_t * once_control,
 				       int state) {
   int s = once_control->state;
   while (s != state) {
+    MYTH_VERIF_SPIN(MVS_ONCE_WAIT);
     myth_yield();
     s = once_control->state;
   }
@@ -430,10 +441,12 @@ static inline int myth_once_wait_until(myth_once_t * once_control,
 static inline int
 myth_once_body(myth_once_t * once_control, void (*init_routine)(void)) {
   int s = once_control->state;
+  MYTH_VERIF_POINT(MVP_ONCE_A);
   if (s == myth_once_state_init) {
    if (myth_once_try_set(once_control, myth_once_state_init,
 			 myth_once_state_in_progress)) {
      init_routine();
+     MYTH_VERIF_POINT(MVP_ONCE_B);
      once_control->state = myth_once_state_completed;
      return 0;
    }
@@ -472,6 +485,7 @@ static inline int myth_mutex_trylock_body(myth_mutex_t * mutex) {
   /* TODO: spin block */
   while (1) {
     long s = mutex->state;
+    MYTH_VERIF_POINT(MVP_MUTEX_TRY_A);
     /* check the lock bit */
     if (s & 1) {
       /* lock bit set. do nothing and go home */
@@ -522,6 +536,7 @@ static inline int myth_mutex_lock_body(myth_mutex_t * mutex) {
   int failed = 0;
   while (1) {
     long s = mutex->state;
+    MYTH_VERIF_POINT(MVP_MUTEX_LOCK_A);
     assert(s >= 0);
     /* check lock bit */
     if ((s & 1) == 0) {
@@ -538,6 +553,7 @@ static inline int myth_mutex_lock_body(myth_mutex_t * mutex) {
       /* lock bit set. indicate I am going to block on it.
 	 I am competing with a thread who is trying to unlock it */
       if (__sync_bool_compare_and_swap(&mutex->state, s, s + 2)) {
+	MYTH_VERIF_POINT(MVP_MUTEX_LOCK_B);
 	/* OK, I reserved a seat in the queue. even if the mutex is
 	   unlocked by another thread right after the above cas, 
 	   he will learn I am going to be in the queue soon, so should
@@ -570,6 +586,7 @@ myth_mutex_timedlock_body(myth_mutex_t * mutex,
       if (myth_mutex_trylock_body(mutex) == 0) {
 	return 0;
       } else {
+	MYTH_VERIF_SPIN(MVS_TIMEDLOCK);
 	myth_yield_ex_body(myth_yield_option_local_first);
       }
     }
@@ -582,6 +599,7 @@ myth_mutex_timedlock_body(myth_mutex_t * mutex,
 static void * myth_mutex_clear_lock_bit(void * mutex_) {
   myth_mutex_t * mutex = mutex_;
   assert(mutex->state & 1);
+  MYTH_VERIF_POINT(MVP_MUTEX_CLEAR);
   __sync_fetch_and_sub(&mutex->state, 1);
   return 0;
 }
@@ -591,6 +609,7 @@ static inline int myth_mutex_unlock_body(myth_mutex_t * mutex) {
   int failed = 0;
   while (1) {
     long s = mutex->state;
+    MYTH_VERIF_POINT(MVP_MUTEX_UNLOCK_A);
     /* the mutex must be locked now (by me). 
        TODO: a better diagnosis message */
     if (!(s & 1)) {
@@ -606,6 +625,7 @@ static inline int myth_mutex_unlock_body(myth_mutex_t * mutex) {
 	 on the queue. decrement it (while still keeping the lock bit)
 	 wake up one, and then clear the lock bit */
       if (__sync_bool_compare_and_swap(&mutex->state, s, s - 2)) {
+	MYTH_VERIF_POINT(MVP_MUTEX_UNLOCK_B);
 	failed += myth_wake_one_from_queue(mutex->sleep_q, 
                                            myth_mutex_clear_lock_bit, mutex);
 	break;
@@ -785,17 +805,20 @@ static inline int myth_cond_destroy_body(myth_cond_t * cond) {
 }
 
 static inline int myth_cond_broadcast_body(myth_cond_t * cond) {
+  MYTH_VERIF_POINT(MVP_COND_BCAST_A);
   myth_wake_all_from_queue(cond->sleep_q, 0, 0);
   return 0;
 }
 
 static inline int myth_cond_signal_body(myth_cond_t * cond) {
+  MYTH_VERIF_POINT(MVP_COND_SIGNAL_A);
   myth_wake_if_any_from_queue(cond->sleep_q, 0, 0);
   return 0;
 }
 
 static inline int myth_cond_wait_body(myth_cond_t * cond, myth_mutex_t * mutex) {
   myth_block_on_queue(cond->sleep_q, mutex);
+  MYTH_VERIF_POINT(MVP_COND_WAIT_A);
   return myth_mutex_lock(mutex);
 }
 
@@ -852,6 +875,7 @@ static inline int myth_barrier_destroy_body(myth_barrier_t * barrier) {
 static inline int myth_barrier_wait_body(myth_barrier_t * barrier) {
   while (1) {
     long c = barrier->state;
+    MYTH_VERIF_POINT(MVP_BARRIER_A);
     if (c >= barrier->n_threads) {
       /* TODO: set errno and return */
       fprintf(stderr, 
@@ -865,12 +889,15 @@ static inline int myth_barrier_wait_body(myth_barrier_t * barrier) {
     if (c == barrier->n_threads - 1) {
       /* I am the last one. wake up all guys.
 	 TODO: spin block */
+      MYTH_VERIF_POINT(MVP_BARRIER_B);
       barrier->state = 0;	/* reset state */
+      MYTH_VERIF_POINT(MVP_BARRIER_C);
       //myth_wake_many_from_queue(barrier->sleep_q, 0, 0, c);
       myth_wake_many_from_stack(barrier->sleep_s, 0, 0, c);
       return MYTH_BARRIER_SERIAL_THREAD;
     } else {
       //myth_block_on_queue(barrier->sleep_q, 0);
+      MYTH_VERIF_POINT(MVP_BARRIER_D);
       myth_block_on_stack(barrier->sleep_s, 0);
       return 0;
     }
@@ -929,6 +956,7 @@ myth_join_counter_init_body(myth_join_counter_t * jc,
 static inline int myth_join_counter_wait_body(myth_join_counter_t * jc) {
   while (1) {
     long s = jc->state;
+    MYTH_VERIF_POINT(MVP_JC_WAIT_A);
     if ((s & jc->state_mask) == jc->n_threads) {
       return 0;
     }
@@ -939,6 +967,7 @@ static inline int myth_join_counter_wait_body(myth_join_counter_t * jc) {
 	 have to keep going */
       continue;
     }
+    MYTH_VERIF_POINT(MVP_JC_WAIT_B);
     myth_block_on_queue(jc->sleep_q, 0);
     assert((jc->state & jc->state_mask) == jc->n_threads);
   }
@@ -947,6 +976,7 @@ static inline int myth_join_counter_wait_body(myth_join_counter_t * jc) {
 static inline int myth_join_counter_dec_body(myth_join_counter_t * jc) {
   while (1) {
     long s = jc->state;
+    MYTH_VERIF_POINT(MVP_JC_DEC_A);
     long n_decs = s & jc->state_mask;
     if (n_decs >= jc->n_threads) {
       /* TODO: set errno and return */
@@ -963,6 +993,7 @@ static inline int myth_join_counter_dec_body(myth_join_counter_t * jc) {
       /* I am the last one. wake up all guys.
 	 TODO: spin block */
       long n_threads_to_wake = (s >> jc->n_threads_bits);
+      MYTH_VERIF_POINT(MVP_JC_DEC_B);
       myth_wake_many_from_queue(jc->sleep_q, 0, 0, n_threads_to_wake);
     }
     break;
@@ -1023,7 +1054,9 @@ static inline int myth_felock_wait_and_lock_body(myth_felock_t * fe,
 static inline int myth_felock_mark_and_signal_body(myth_felock_t * fe,
 						   int status_to_signal) {
   fe->status = status_to_signal;
+  MYTH_VERIF_POINT(MVP_FE_A);
   myth_cond_signal(&fe->cond[status_to_signal]);
+  MYTH_VERIF_POINT(MVP_FE_B);
   return myth_mutex_unlock_body(fe->mutex);
 }
 
@@ -1058,13 +1091,16 @@ MYTH_CTX_CALLBACK
 void myth_uncond_wait_cb(void *arg1,void *arg2,void *arg3) {
   myth_uncond_t * u = arg1;
   myth_thread_t cur = arg2;
+  MYTH_VERIF_POINT(MVP_UNCOND_WAIT_CB_A);
   u->th = cur;
+  MYTH_VERIF_POINT(MVP_UNCOND_WAIT_CB_B);
 }
 
 static inline int myth_uncond_wait_body(myth_uncond_t * u) {
   myth_running_env_t env = myth_get_current_env();
   myth_thread_t cur = env->this_thread;
   /* pop next thread to run */
+  MYTH_VERIF_POINT(MVP_BLOCK_A);
   myth_thread_t next = myth_queue_pop(&env->runnable_q);
   /* next context to run. either another thread
      or the scheduler */
@@ -1089,10 +1125,13 @@ static inline int myth_uncond_signal_body(myth_uncond_t * u) {
   myth_running_env_t env = myth_get_current_env();
   myth_thread_t to_wake = u->th;
   while (!to_wake) {
+    MYTH_VERIF_SPIN(MVS_UNCOND_SIGNAL);
     to_wake = u->th;
   }
   to_wake->env = env;
+  MYTH_VERIF_POINT(MVP_UNCOND_SIG_A);
   u->th = 0;
+  MYTH_VERIF_POINT(MVP_UNCOND_SIG_B);
   myth_queue_push(&env->runnable_q, to_wake);
   return 0;
 }
